@@ -594,13 +594,15 @@ pub struct SniCaseE {
     pub uri_host: &'static str,
     pub host_header: Option<&'static str>,
     pub h2: bool,
+    /// neither side offers ALPN protocols (a handshake that negotiates nothing besides the keys)
+    pub no_alpn: bool,
 }
 
 pub async fn run_sni_case(c: &SniCaseE) -> (Result<u16, String>, Vec<Handled>) {
     let log = Arc::new(Log::default());
     let gates = Gates::default();
     let routes = Routes { log: log.clone(), ..Default::default() };
-    let alpn: &[&str] = if c.h2 { &["h2"] } else { &["http/1.1"] };
+    let alpn: &[&str] = if c.no_alpn { &[] } else if c.h2 { &["h2"] } else { &["http/1.1"] };
     let h = spawn_server(
         ServerSpec { id: 0, proto: if c.h2 { Proto::H2 } else { Proto::H1 }, net: Net::Duplex(16_384), tls: Some(Arc::new(server_tls("good", alpn))), graceful: false, sni_validation: true },
         log.clone(),
@@ -800,7 +802,10 @@ pub fn run(args: &Args) -> Report {
         for uri_host in ["example.com", "EXAMPLE.test", "a.test"] {
             for host_header in [None, Some("example.com"), Some("EXAMPLE.COM"), Some("example.com:8443"), Some("a.test"), Some("A.Test:443"), Some("example.test"), Some("other.test"), Some("example.com.evil.test"), Some("127.0.0.1")] {
                 for h2 in [false, true] {
-                    scs.push(SniCaseE { uri_host, host_header, h2 });
+                    scs.push(SniCaseE { uri_host, host_header, h2, no_alpn: false });
+                    if uri_host != "EXAMPLE.test" {
+                        scs.push(SniCaseE { uri_host, host_header, h2, no_alpn: true });
+                    }
                 }
             }
         }
@@ -811,7 +816,8 @@ pub fn run(args: &Args) -> Report {
                     if host_header == Some("") && h2 {
                         continue;
                     }
-                    scs.push(SniCaseE { uri_host, host_header, h2 });
+                    scs.push(SniCaseE { uri_host, host_header, h2, no_alpn: false });
+                    scs.push(SniCaseE { uri_host, host_header, h2, no_alpn: true });
                 }
             }
         }
@@ -821,7 +827,7 @@ pub fn run(args: &Args) -> Report {
             let rt = tokio::runtime::Builder::new_current_thread().enable_all().start_paused(true).build().unwrap();
             let (res, handled) = rt.block_on(run_sni_case(c));
             let p = r.prop("C20", RULE20E);
-            let replay = json!({"engine": "tlsworld", "sni_case": {"uri_host": c.uri_host, "host_header": c.host_header, "h2": c.h2}});
+            let replay = json!({"engine": "tlsworld", "sni_case": {"uri_host": c.uri_host, "host_header": c.host_header, "h2": c.h2, "no_alpn": c.no_alpn}});
             p.eval(Some(hash_of(c)));
             // what names the host on the wire: HTTP/2 -> :authority = URI host (the Host header is stripped by the
             // client's HTTP/2 checks); HTTP/1.1 -> the caller's Host header, else the one derived from the URI
@@ -831,6 +837,9 @@ pub fn run(args: &Args) -> Report {
             let equal = sni_sent && strip(&named) == c.uri_host.to_ascii_lowercase();
             if !sni_sent {
                 p.count("e2e_connections_without_server_name", 1);
+                if c.no_alpn {
+                    p.count("e2e_connections_without_server_name_and_without_alpn", 1);
+                }
             }
             let reached = handled.iter().any(|h| h.header_id == Some(55));
             p.count(if equal { "e2e_must_forward" } else { "e2e_must_reject" }, 1);
@@ -839,7 +848,7 @@ pub fn run(args: &Args) -> Report {
             } else if equal && !reached {
                 p.violation(format!("e2e:rejected-although-host-equals-sni:{}", if c.h2 { "h2" } else { "h1" }), format!("Host {named:?} equals SNI {} but the handler was not reached: {res:?} | {replay}", c.uri_host), replay.clone());
             } else if !equal && reached {
-                p.violation(format!("e2e:forwarded-although-host-differs:{}", if c.h2 { "h2" } else { "h1" }), format!("Host {named:?} differs from SNI {} but the handler was reached | {replay}", c.uri_host), replay.clone());
+                p.violation(format!("e2e:forwarded-although-host-differs:{}", if c.h2 { "h2" } else { "h1" }), format!("Host {named:?} {} but the handler was reached | {replay}", if sni_sent { format!("differs from SNI {}", c.uri_host) } else { "on a connection that carried no server name at all".to_string() }), replay.clone());
             } else if equal && reached && handled.iter().any(|h| h.header_id == Some(55) && h.tls_validated != Some(true)) {
                 p.violation("e2e:forwarded-without-validated-flag", format!("handler reached without the validated flag | {replay}"), replay.clone());
             }
